@@ -95,7 +95,7 @@ func c09play(cl *Client, sc *srvConn, seq []string, base int, hist string) int {
 	return count
 }
 
-func c09body(first []string, maxLen int, withResume bool) func() {
+func c09body(first []string, maxLen int, withResume bool, variant string) func() {
 	return func() {
 		seq := append([]string{}, first...)
 		for len(seq) < maxLen {
@@ -115,8 +115,15 @@ func c09body(first []string, maxLen int, withResume bool) func() {
 				seq2 = append(seq2, c09alphabet[k-1])
 			}
 		}
-		hist := fmt.Sprintf("history %v resume=%v then %v", seq, withResume, seq2)
-		s := newSess(sessOpts{sm: true, smResume: true})
+		hist := fmt.Sprintf("history %v resume=%v then %v variant=%s", seq, withResume, seq2, variant)
+		o := sessOpts{sm: true, smResume: true}
+		switch variant {
+		case "refused":
+			o.resumeAns = "failed" // the resumption is refused: the connection carries a NEW session
+		case "no-id":
+			o.enableAns = "enabled-no-resume" // stream management without resumption: <enabled/> has no id
+		}
+		s := newSess(o)
 		if s.cl == nil {
 			return
 		}
@@ -138,6 +145,15 @@ func c09body(first []string, maxLen int, withResume bool) func() {
 			return
 		}
 		vrt.WaitIdle()
+		if variant == "refused" {
+			// a fresh stream-managed session: its count starts at zero
+			if len(s.recs) < 2 || !s.recs[1].EnableOK {
+				vrt.Fail("C09|harness|fresh-session", "%s: no fresh stream-managed session after the refusal", hist)
+				return
+			}
+			c09play(s.cl, s.conn(1), append(append([]string{}, seq2...), "r"), 0, hist+" (new session after a refused resumption)")
+			return
+		}
 		if len(s.recs) < 2 || len(s.recs[1].ResumeSeen) != 1 {
 			vrt.Fail("C09|no-resume-request", "%s: second connection saw resume requests %v", hist, s.recs[len(s.recs)-1].ResumeSeen)
 			return
@@ -155,6 +171,63 @@ func c09body(first []string, maxLen int, withResume bool) func() {
 			vrt.Fail("C09|resume-count-wrong|"+nonStanza, "%s: <resume h=%q>, stanzas received on the session %d", hist, h, total)
 		}
 		c09play(s.cl, s.conn(1), append(append([]string{}, seq2...), "r"), total, hist+" (after resumption)")
+	}
+}
+
+// c09burst sends a whole history in ONE write (everything arrives in the same read, <r/>
+// directly behind stanzas) and compares the ordered list of answers with the reference.
+func c09burst(first []string, maxLen int) func() {
+	return func() {
+		seq := append([]string{}, first...)
+		// (an answer to a pending SendIQ needs a request in flight: covered by the step-wise histories)
+		alpha := []string{"message", "presence", "iq", "r", "a", "features"}
+		for len(seq) < maxLen {
+			k := vrt.ChooseFree("next", len(alpha)+1)
+			if k == 0 {
+				break
+			}
+			seq = append(seq, alpha[k-1])
+		}
+		seq = append(seq, "r")
+		s := newSess(sessOpts{sm: true, smResume: true})
+		if s.cl == nil {
+			return
+		}
+		if err := s.cl.Connect(); err != nil {
+			vrt.Fail("C09|harness|connect", "%v", err)
+			return
+		}
+		vrt.WaitIdle()
+		sc := s.conn(0)
+		sc.drainNew()
+		var sb strings.Builder
+		var want []string
+		count := 0
+		for i, sym := range seq {
+			if sym == "iq-resp" {
+				sym = "iq"
+			}
+			sb.WriteString(c09wire(sym, i))
+			if c09isStanza(sym) {
+				count++
+			}
+			if sym == "r" {
+				want = append(want, strconv.Itoa(count))
+			}
+		}
+		sc.send(sb.String())
+		vrt.WaitIdle()
+		var got []string
+		for _, u := range sc.drainNew() {
+			if u.kind == "element" && u.name == "a" {
+				got = append(got, attr(u.raw, "h"))
+			}
+		}
+		vrt.Log("burst %v -> %v", seq, got)
+		// answers may be written by concurrent goroutines only in the order the requests were read
+		if strings.Join(got, ",") != strings.Join(want, ",") {
+			vrt.Fail("C09|burst-answers-wrong", "inbound %v delivered in one write: answers h=%v, reference %v", seq, got, want)
+		}
 	}
 }
 
@@ -180,9 +253,19 @@ func TestVerifC09(t *testing.T) {
 					ml = maxLen - 1
 				}
 				scs = append(scs, hx.Scenario{Name: fmt.Sprintf("first=%s,%s/resume=%v", a, b, res), Opt: vrt.Options{Bound: 0},
-					Body: c09body([]string{a, b}, ml, res), Verdict: c09verdict})
+					Body: c09body([]string{a, b}, ml, res, ""), Verdict: c09verdict})
 			}
 		}
+	}
+	for _, a := range c09alphabet {
+		scs = append(scs, hx.Scenario{Name: "refused-resumption/first=" + a, Opt: vrt.Options{Bound: 0}, Body: c09body([]string{a}, maxLen-1, true, "refused"), Verdict: c09verdict})
+		scs = append(scs, hx.Scenario{Name: "sm-without-id/first=" + a, Opt: vrt.Options{Bound: 0}, Body: c09body([]string{a}, maxLen-1, false, "no-id"), Verdict: c09verdict})
+	}
+	for _, a := range c09alphabet {
+		if a == "iq-resp" {
+			continue
+		}
+		scs = append(scs, hx.Scenario{Name: "burst/first=" + a, Opt: vrt.Options{Bound: 0}, Body: c09burst([]string{a}, maxLen), Verdict: c09verdict})
 	}
 	scs = append(scs, hx.Scenario{Name: "short", Opt: vrt.Options{Bound: 0}, Body: func() {
 		k := vrt.ChooseFree("one", len(c09alphabet)+1)
@@ -190,7 +273,7 @@ func TestVerifC09(t *testing.T) {
 		if k > 0 {
 			seq = []string{c09alphabet[k-1]}
 		}
-		c09body(append(seq, "r"), len(seq)+1, vrt.ChooseFree("res", 2) == 1)()
+		c09body(append(seq, "r"), len(seq)+1, vrt.ChooseFree("res", 2) == 1, "")()
 	}, Verdict: c09verdict})
 	if hx.Main("C09", scs) == 2 {
 		t.Fatal("internal error")
